@@ -49,11 +49,12 @@ def _mk_space(kind, nd):
     from vopy.design_space import AdaptivelyDiscretizedDesignSpace, FixedPointsDesignSpace
     if kind == "adaptive":
         ds = AdaptivelyDiscretizedDesignSpace(1, 2, delta=0.1, max_depth=4)
+        # the root starts from the spec's initial box BEFORE refining: children are created from the parent's region exactly as
+        # the library does it (refine_design hands the parent's bound arrays to the children)
+        ds.confidence_regions[0].lower = np.array([-HUGE, -HUGE])
+        ds.confidence_regions[0].upper = np.array([HUGE, HUGE])
         while len(ds.points) < nd:
             ds.refine_design(len(ds.points) - 1)
-        for r in ds.confidence_regions:      # children copy the parent's region: start every node from the spec's initial box
-            r.lower = np.array([-HUGE, -HUGE])
-            r.upper = np.array([HUGE, HUGE])
         return ds
     pts = np.array([[0.1 * (i + 1), 1.0 - 0.07 * i] for i in range(nd)])
     ds = FixedPointsDesignSpace(pts, 2, confidence_type="hyperellipsoid" if kind == "ell" else "hyperrectangle")
@@ -75,7 +76,7 @@ def _drive(args):
     for t in range(count):
         nd = rnd.choice([2, 3, 4, 5])
         kind = rnd.choice(["rect", "rect", "adaptive"])
-        it = kind == "rect" and rnd.random() < 0.5
+        it = rnd.random() < 0.5
         ds = _mk_space(kind, nd)
         if it:
             for r in ds.confidence_regions:
